@@ -385,6 +385,13 @@ class Prov:
             elif is_optres and meth in OPT_FN and len(args) == 2 and calls[-1][0] == 1:
                 out = self._feed_callable(b, bi, calls[-1][1], [atags[0]])
                 res = out | (atags[0] if meth != "map" else set())
+            elif is_optres and meth in ("map_or", "map_or_else") and len(args) == 3 and calls and calls[-1][0] == 2:
+                # x.map_or(default, f) / x.map_or_else(g, f): the payload goes to the last callable, the result is its
+                # result or the default (for map_or_else: what the first callable returns)
+                out = self._feed_callable(b, bi, calls[-1][1], [atags[0]])
+                res = out | atags[1]
+                if meth == "map_or_else" and len(calls) == 2:
+                    res |= self._feed_callable(b, bi, calls[0][1], [atags[0]])
             elif is_optres and meth in ELSE_FN and calls[-1][0] == len(args) - 1:
                 out = self._feed_callable(b, bi, calls[-1][1], [atags[0]])
                 res = atags[0] | out
